@@ -127,6 +127,11 @@ pub fn run(a: &Args) {
                 for s in [libc::SIGUSR1, libc::SIGUSR2, libc::SIGRTMIN() + 1] { tgkill(target.pid, tid, s); }
                 let (pid, released) = (target.pid, std::sync::Arc::new(std::sync::atomic::AtomicBool::new(false)));
                 let rel2 = released.clone();
+                // the dumping thread itself is interrupted while it waits for the attached thread to stop: a handler installed
+                // without SA_RESTART makes that wait return EINTR (twice), which must only make it wait again
+                extern "C" fn nop(_: i32) {}
+                unsafe { let mut sa: libc::sigaction = std::mem::zeroed(); sa.sa_sigaction = nop as usize; sa.sa_flags = 0; libc::sigaction(libc::SIGURG, &sa, std::ptr::null_mut()); }
+                let (me, dumper_tid) = (std::process::id() as i32, unsafe { libc::syscall(libc::SYS_gettid) } as i32);
                 let watcher = std::thread::spawn(move || {
                     for _ in 0..3000 {
                         let st = std::fs::read_to_string(format!("/proc/{pid}/task/{tid}/status")).unwrap_or_default();
@@ -134,6 +139,7 @@ pub fn run(a: &Args) {
                         if tracer != 0 { rel2.store(true, std::sync::atomic::Ordering::SeqCst); break; }
                         std::thread::sleep(std::time::Duration::from_millis(1));
                     }
+                    if rel2.load(std::sync::atomic::Ordering::SeqCst) { for _ in 0..2 { std::thread::sleep(std::time::Duration::from_millis(3)); tgkill(me, dumper_tid, libc::SIGURG); } std::thread::sleep(std::time::Duration::from_millis(3)); }
                     unsafe { libc::kill(child as i32, libc::SIGKILL); }
                 });
                 let mut w = MinidumpWriter::new(target.pid, target.pid);
